@@ -77,7 +77,7 @@ class Plan(object):
         self.script = script
         self.vals = vals                    # NSLOTS env values
         self.exc = exc or [False] * NSLOTS  # NSLOTS "input raises Boom" flags
-        self.final = final                  # 0 return acc, 1 raise Boom, 2 raise Interrupt
+        self.final = final                  # 0 return acc, 1 raise Boom, 2 raise Interrupt, 3 return an unserializable object
         self.rep = rep
         self.term_at = -1                   # early termination before/inside step term_at
         self.term_kind = 1                  # 1 Boom, 2 Interrupt
@@ -387,6 +387,13 @@ def make_service(deco, plan, run, handlers=None, params=None):
             raise exc_obj(plan, 'final', Boom)
         if plan.final == 2:
             raise exc_obj(plan, 'final', Interrupt)
+        if plan.final == 3:
+            for k2, u in plan.uvals:            # the operation's result itself is something the serializer rejects
+                if k2 == 'final':
+                    return u
+            u = UVal(acc)
+            plan.uvals.append(('final', u))
+            return u
         return acc
 
     return Svc
